@@ -16,7 +16,7 @@ ASSUMPTIONS = ["relax <= maxsuper", "multiplier bound for complex is sqrt(2)/u b
                "near-threshold pivot decisions (within 8 eps) are not asserted"]
 BUDGET = {
     "quick": {"examples": 28000, "workers": 14, "time_budget": 80, "variants": ["asan"]},
-    "thorough": {"examples": 300000, "workers": 14, "time_budget": 1300, "variants": ["asan", "vendor", "omp", "long"], "variant_share": {"asan": 0.6, "vendor": 0.2, "omp": 0.1, "long": 0.1}},
+    "thorough": {"examples": 300000, "workers": 14, "time_budget": 1300, "variants": ["asan", "vendor", "omp", "long", "nohook"], "variant_share": {"asan": 0.5, "vendor": 0.2, "omp": 0.1, "long": 0.1, "nohook": 0.1}},
 }
 
 
